@@ -34,6 +34,7 @@ K_STRANDED = "handle:adf-close-error-strands-cgio-slot"   # close of a live hand
 K_H5LINK = "fd:hdf5-linked-file-left-open"             # ids of nodes inside a linked-to HDF5 file survive ADFH_Database_Close
 K_OPENFAIL = "fd:cg_open-fails-after-cgio-open"        # cg_open returns CG_ERROR and keeps the cgio file and the table entry
 K_ADFCYCLE_LEAK = "fd:adf-link-cycle-keeps-files-open"  # (repaired close only) reference-count cycle
+K_SAVEAS = "fd:cg_save_as-fails-after-cgio-open"       # cg_save_as returns CG_ERROR and keeps the output file open
 K_H5TWICE = "fd:hdf5-same-file-opened-twice"           # ADFH get_file_id picks the other handle's file id: the second close fails (95)
 
 
@@ -371,7 +372,7 @@ def mll_oracle(r):
     if len(il) != len(r["script"]):
         raise vlib.Infra("c17_mll: %d answers for %d script lines: %s" % (len(il), len(r["script"]), il[-2:]))
     prev = None
-    late_files, twice_files, stranded_files, seen = set(), set(), set(), set()
+    late_files, twice_files, stranded_files, save_files, seen = set(), set(), set(), set(), set()
     link_targets = set("M%s.cgns" % o.split()[5] for o in r["script"] if o.startswith("link "))
     hfile = {}
     for op, l in zip(r["script"], il):
@@ -392,6 +393,8 @@ def mll_oracle(r):
                     causes.add(K_OPENFAIL); rest -= late_files
                     if rest <= link_targets:         # files the stranded file had opened through its links
                         rest = set()
+                if save_files:                       # seen: a failing cg_save_as that left its output open
+                    causes.add(K_SAVEAS); rest -= save_files
                 if twice_files:                      # seen: a cg_close failing with ADFH_ERR_FILE_INDEX
                     causes.add(K_H5TWICE); rest -= twice_files
                 if stranded_files:                   # seen: a cg_close failing with ADF_FILE_NOT_OPENED
@@ -425,6 +428,9 @@ def mll_oracle(r):
                 if op.startswith("open") and prev.get("mllprev") is not None and "mll" in d and int(d["mll"].split()[1]) > prev["mllprev"]:
                     key = K_OPENFAIL             # n_open went up although the call failed: it failed behind cgio_open_file
                     late_files.add("M%s.cgns" % op.split()[2])
+                if op.startswith("save ") and d["fds"] > prev["fds"]:
+                    key = K_SAVEAS               # the output file of a failing cg_save_as stays open
+                    save_files.add("M%s.cgns" % op.split()[2])
                 if (key, op.split()[0]) not in seen:
                     seen.add((key, op.split()[0]))
                     bad.append((key, {"problem": "a call that returned an error changed the descriptor / HDF5 id count",
